@@ -102,7 +102,7 @@ func TestC07(t *testing.T) {
 			send = func(b []byte) error { return srcEP.sendUDP(l.Addr, l.UDPPort, b) }
 		}
 		own := s.gSenderVia(rt, g, srcPort)
-		p := msgParts{IsReq: true, Version: "SIP/2.0", Method: rapid.SampledFrom([]string{"INVITE", "OPTIONS", "MESSAGE", "REGISTER"}).Draw(rt, "method")}
+		p := msgParts{IsReq: true, Version: "SIP/2.0", Method: rapid.SampledFrom([]string{"INVITE", "OPTIONS", "MESSAGE", "REGISTER", "ACK", "CANCEL", "BYE", "PRACK", "UPDATE"}).Draw(rt, "method")}
 		p.CSeqMethod, p.CSeqN = p.Method, rapid.IntRange(1, 9999).Draw(rt, "cseq")
 		id := s.nextID("c07-")
 		p.CallID = id
@@ -350,7 +350,7 @@ func TestC07(t *testing.T) {
 		// a request of the backend's own, routed to a user agent by Route
 		ua := rapid.IntRange(0, 3).Draw(rt, "toua")
 		uaport := rapid.SampledFrom([]int{5060, 6010}).Draw(rt, "touaport")
-		p := msgParts{IsReq: true, Version: "SIP/2.0", Method: rapid.SampledFrom([]string{"NOTIFY", "SUBSCRIBE", "OPTIONS", "BYE"}).Draw(rt, "method")}
+		p := msgParts{IsReq: true, Version: "SIP/2.0", Method: rapid.SampledFrom([]string{"NOTIFY", "SUBSCRIBE", "OPTIONS", "BYE", "ACK", "CANCEL"}).Draw(rt, "method")}
 		p.CSeqMethod, p.CSeqN = p.Method, rapid.IntRange(1, 9999).Draw(rt, "cseq")
 		p.CallID = s.nextID("c07b-")
 		p.RURI = AURI{Scheme: "sip", User: "u", Host: s.ip(10 + ua), Port: uaport}
@@ -427,7 +427,7 @@ func c07HopConnections(t *testing.T, svcs []*stdSvc) {
 		toUA := rapid.IntRange(0, 3).Draw(rt, "toua")
 		own := s.gSenderVia(rt, stdIngress{UA: 0, Entry: entry, TCP: true}, hopPort)
 		own.Host = rapid.SampledFrom([]string{hopIP, "hop.internal.example", s.ip(12)}).Draw(rt, "hop sent-by")
-		p := msgParts{IsReq: true, Version: "SIP/2.0", Method: rapid.SampledFrom([]string{"NOTIFY", "OPTIONS", "MESSAGE", "BYE"}).Draw(rt, "method")}
+		p := msgParts{IsReq: true, Version: "SIP/2.0", Method: rapid.SampledFrom([]string{"NOTIFY", "OPTIONS", "MESSAGE", "BYE", "ACK"}).Draw(rt, "method")}
 		p.CSeqMethod, p.CSeqN = p.Method, rapid.IntRange(1, 9999).Draw(rt, "cseq")
 		p.CallID = s.nextID("c07hr-")
 		p.RURI = AURI{Scheme: "sip", User: "u", Host: s.ip(10 + toUA), Port: 6010}
